@@ -480,9 +480,41 @@ def ops_views(rng):
         ops.append({"op": "Fill", "s": 1, "x": x, "w": rng.choice(DR.POSWEIGHTS)})
         if rng.random() < 0.3:
             ops.append(_view_op(rng, d, kind, fin, al))
+        if rng.random() < 0.15:
+            ops.append(DR.acc_op(rng, d, 1, al))
     for _ in range(rng.randint(1, 4)):
         ops.append(_view_op(rng, d, kind, fin, al))
+    if rng.random() < 0.5:
+        ops.append(DR.acc_op(rng, d, 1, al))
     return ops, 1, d
+
+
+def insert_views(rng, d, ops, slots=(1, 2)):
+    """C06: read-only view calls (bin_entries / bin_edges / ... / labels) on the first slots of a generic history, at
+    random positions after the slots exist - a view must not change what it describes"""
+    kind = {"Bin": "1d", "SparselyBin": "1d", "CentrallyBin": "1d", "IrregularlyBin": "1d", "Categorize": "cat"}.get(d["k"])
+    if kind is None:
+        return ops
+    if d["k"] in ("Bin", "SparselyBin") and d["value"]["k"] == d["k"] and rng.random() < 0.5:
+        kind = "2d"
+    al = DR.Alphabet(d)
+    fin = [v for v in al.xs if v[1] != 0]
+    if len(fin) < 2:
+        return ops
+    if any(n["k"] == "SparselyBin" for _, n in D.walk(d)):
+        # a sparse histogram that received +-inf holds the saturated indexes -2^63 / 2^63-1: its full-range views
+        # would allocate one entry per index in between (outside the view model, and outside this machine's memory)
+        data = [o["x"] for o in ops if "x" in o] + [r for o in ops if "rows" in o for r in o["rows"]]
+        if any(isinstance(v, (list, tuple)) and len(v) == 2 and v[1] == 0 and v[0] != 0 for x in data for v in x.values()):
+            return ops
+    first = max(i for i, o in enumerate(ops) if o["op"] == "New" and o["s"] in slots) + 1
+    out = list(ops)
+    for _ in range(rng.randint(1, 3)):
+        v = dict(_view_op(rng, d, kind, fin, al), a=rng.choice(slots))
+        # (not between a build operation and the Drop of its result: until then the result shares its arguments)
+        where = [p for p in range(first, len(out) + 1) if out[p - 1]["op"] not in ("StackBuild", "FractionBuild", "Histogram")]
+        out.insert(rng.choice(where), v)
+    return out
 
 
 def _view_op(rng, d, kind, fin, al):
